@@ -676,6 +676,33 @@ def r14_refusal_before_adoption(idx, r):
         raise AnchorMissing("refusals in add/insert overrides below ArmiObject")
 
 
+def r15_deepcopy_passes_the_memo(idx, r):
+    """Inside `__deepcopy__(self, memo)` every nested copy.deepcopy() receives the memo.  Without it the nested copy starts a fresh memo:
+    objects already copied (the parent, siblings referenced twice) are copied a second time and the results are not the same objects -
+    a registry entry that should be the copy's own child becomes a parentless twin."""
+    n = 0
+    for c in idx.all_classes():
+        if not c.fq.startswith("armi.reactor.") or ".tests" in c.fq:
+            continue
+        f = c.methods.get("__deepcopy__")
+        if f is None or len(f.params()) < 2:
+            continue
+        memo = f.params()[1]
+        for call in iter_calls(f.node):
+            if dotted(call.func) in ("copy.deepcopy", "deepcopy"):
+                n += 1
+                got = get_arg(call, 1, "memo")
+                r.require(got is not None and norm(got) == memo, f"{c.name}.__deepcopy__:nested-copy-shares-the-memo:{norm(call.args[0])[:40] if call.args else ''}", f, node=call,
+                          msg=f"`{norm(call)[:70]}` copies without the memo of the enclosing __deepcopy__: what was already copied (the new parent, shared children) is copied again into separate objects")
+    if n < 4:
+        raise AnchorMissing("nested deepcopy calls inside __deepcopy__ overrides")
+
+
+def r16_pairing(idx, r):
+    from ..pairing import pairing_rule
+    pairing_rule(idx, r, ["armi.reactor.composites", "armi.reactor.assemblies", "armi.reactor.cores", "armi.reactor.reactors", "armi.reactor.excoreStructure", "armi.reactor.spentFuelPool"], 100)
+
+
 def run(idx, chk):
     chk.explanation = (
         "C01: who may write Composite._children / .parent (frozen owners), pairing of parent/list/locator effects on every path of "
@@ -712,3 +739,7 @@ def run(idx, chk):
                  necessary="every object has at most one parent; copies share no node with the original; queries agree with a naive walk")
     chk.run_rule("R01.14", "an add/insert that refuses the child raises before it adopted it", lambda r: r14_refusal_before_adoption(idx, r), floor=3,
                  necessary="the child list and the parent pointers agree after any sequence of add/insert, including refused ones")
+    chk.run_rule("R01.15", "a nested deepcopy inside __deepcopy__ passes the memo on", lambda r: r15_deepcopy_passes_the_memo(idx, r), floor=4,
+                 necessary="a copy shares no node with the original and every node of the copy has exactly one parent in the copy")
+    chk.run_rule("R01.16", "arguments stand at the parameter they are named after; sibling calls forward the same pass-through parameters", lambda r: r16_pairing(idx, r), floor=1,
+                 necessary="queries with every combination of options agree with a naive walk")
